@@ -1,6 +1,7 @@
 package main
 
 import (
+	"regexp"
 	"encoding/json"
 	"fmt"
 	"os"
@@ -23,6 +24,8 @@ type c08Case struct {
 	RuleEnable []string `json:"rule_enable,omitempty"` // names in an unconditional rule { enable = [...] } block of Config
 	Switch     string   `json:"switch"`                // disabled-flag | disabled-config | rule-disable | enabled-flag | enabled-config | offline
 	Name       string   `json:"name"`
+	Command    string   `json:"command,omitempty"`     // "" = lint | ci
+	State      string   `json:"entry_state,omitempty"` // with ci: the change state every entry carries (noop | added | modified)
 }
 
 // a configuration enabling every configurable check kind that runs without a server
@@ -65,17 +68,21 @@ rule {
 }
 `
 
-func c08Reports(cfgText, file string, o pipe.Options, r *hx.Run) ([]string, string) {
+func c08Reports(cfgText, file string, o pipe.Options, r *hx.Run) (out []string, perr string) {
 	cfg, err := pipe.LoadConfig(r.OutDir, cfgText)
 	if err != nil {
 		return nil, "config: " + err.Error()
 	}
+	defer func() {
+		if p := recover(); p != nil {
+			out, perr = nil, fmt.Sprintf("panic while applying the switches: %v", p)
+		}
+	}()
 	pipe.ApplyFlags(&cfg, o)
 	res := pipe.Lint(cfg, "rules/r.yml", []byte(file), o)
 	if res.Panic != "" {
 		return nil, res.Panic
 	}
-	var out []string
 	for _, rep := range res.Reports {
 		out = append(out, rep.Problem.Reporter+"\x00"+pipe.ReportKey(rep, 1<<30, 0))
 	}
@@ -86,12 +93,17 @@ func c08Reports(cfgText, file string, o pipe.Options, r *hx.Run) ([]string, stri
 func reporterOf(k string) string { return k[:strings.Index(k, "\x00")] }
 
 func c08Eval(r *hx.Run, cs c08Case) {
-	base, perr := c08Reports(cs.Config, cs.File, pipe.Options{Strict: true}, r)
+	o := pipe.Options{Strict: true}
+	if cs.Command == "ci" {
+		o.Command = config.CICommand
+		st := map[string]discovery.ChangeType{"noop": discovery.Noop, "added": discovery.Added, "modified": discovery.Modified}[cs.State]
+		o.State = &st
+	}
+	base, perr := c08Reports(cs.Config, cs.File, o, r)
 	if perr != "" {
 		r.Count("baseline-error")
 		return
 	}
-	o := pipe.Options{Strict: true}
 	cfgText := cs.Config
 	var want []string
 	online := map[string]bool{}
@@ -99,7 +111,7 @@ func c08Eval(r *hx.Run, cs c08Case) {
 		online[n] = true
 	}
 	switch cs.Switch {
-	case "disabled-flag":
+	case "disabled-flag", "disabled-flag-pattern":
 		o.Disabled = []string{cs.Name}
 	case "disabled-config":
 		cfgText += fmt.Sprintf("\nchecks {\n  disabled = [%q]\n}\n", cs.Name)
@@ -118,6 +130,16 @@ func c08Eval(r *hx.Run, cs c08Case) {
 		case "disabled-flag", "disabled-config":
 			// documented precedence: rule { enable } overrides checks { disabled } (and --disabled, which fills it)
 			if rep != cs.Name || slices.Contains(cs.RuleEnable, rep) {
+				want = append(want, k)
+			}
+		case "disabled-flag-pattern":
+			// --disabled VALUE: the checks whose whole name matches VALUE as a regexp (or equals it); a value that is not a
+			// regexp names nothing but itself
+			hit := rep == cs.Name
+			if re, err := regexp.Compile("^(?:" + cs.Name + ")$"); err == nil && re.MatchString(rep) {
+				hit = true
+			}
+			if !hit || slices.Contains(cs.RuleEnable, rep) {
 				want = append(want, k)
 			}
 		case "rule-disable":
@@ -153,6 +175,41 @@ func c08Eval(r *hx.Run, cs c08Case) {
 		diff := map[string]any{"missing": minus(want, got), "unexpected": minus(got, want)}
 		r.Violate(hx.Violation{Class: "switch-by-name:" + cs.Switch + map[bool]string{true: "", false: ":" + cs.Name}[cs.Switch == "offline"], Input: cs, Observed: diff,
 			Expected: "exactly the baseline problems whose reporter the switch selects (see DESIGN C08)"})
+	}
+}
+
+// c08Instances: every configured block gives its own check instance, also when two blocks of one rule carry the same
+// settings (instances are told apart by their String()): one problem per violated block.
+func c08Instances(r *hx.Run) {
+	for _, pc := range []struct {
+		name, cfg, file string
+		want            map[string]int
+	}{
+		{"for+keep_firing_for same limits", "rule {\n  for {\n    min = \"15m\"\n  }\n  keep_firing_for {\n    min = \"15m\"\n  }\n}\n",
+			"groups:\n- name: g\n  rules:\n  - alert: A\n    expr: up == 0\n    for: 1m\n    keep_firing_for: 1m\n", map[string]int{"rule/for": 2}},
+		{"for+keep_firing_for same max", "rule {\n  for {\n    max = \"1m\"\n  }\n  keep_firing_for {\n    max = \"1m\"\n  }\n}\n",
+			"groups:\n- name: g\n  rules:\n  - alert: A\n    expr: up == 0\n    for: 1h\n    keep_firing_for: 1h\n", map[string]int{"rule/for": 2}},
+		{"two label blocks", "rule {\n  label \"team\" {\n    required = true\n  }\n  label \"owner\" {\n    required = true\n  }\n}\n",
+			"groups:\n- name: g\n  rules:\n  - alert: A\n    expr: up == 0\n", map[string]int{"rule/label": 2}},
+		{"two annotation blocks", "rule {\n  annotation \"summary\" {\n    required = true\n  }\n  annotation \"link\" {\n    required = true\n  }\n}\n",
+			"groups:\n- name: g\n  rules:\n  - alert: A\n    expr: up == 0\n", map[string]int{"alerts/annotation": 2}},
+	} {
+		got, perr := c08Reports(pc.cfg, pc.file, pipe.Options{Strict: true}, r)
+		if perr != "" {
+			r.Violate(hx.Violation{Class: "run-failed:instances", Input: pc.name, Observed: tail(perr, 800)})
+			continue
+		}
+		n := map[string]int{}
+		for _, k := range got {
+			n[reporterOf(k)]++
+		}
+		r.Case("instances:"+pc.name, true)
+		for rep, w := range pc.want {
+			if n[rep] != w {
+				r.Violate(hx.Violation{Class: "configured-instance-missing:" + rep, Input: map[string]any{"probe": pc.name, "config": pc.cfg, "file": pc.file},
+					Observed: map[string]any{"problems": n[rep]}, Expected: fmt.Sprintf("%d problems reported by %s: one per configured block", w, rep)})
+			}
+		}
 	}
 }
 
@@ -217,7 +274,19 @@ func runC08(r *hx.Run, replay string) {
 		for _, sw := range []string{"disabled-flag", "disabled-config", "rule-disable", "enabled-flag", "enabled-config"} {
 			c08Eval(r, c08Case{Config: c08AllKinds, File: c08Rules, Switch: sw, Name: n})
 		}
+		// under `pint ci`, on unmodified and on added rules, with the configured checks running on every state
+		cfgCI := strings.Replace(c08AllKinds, "rule {", "rule {\n  match {\n    state = [\"any\"]\n  }", 1)
+		for _, st := range []string{"noop", "added"} {
+			for _, sw := range []string{"disabled-config", "rule-disable", "enabled-config"} {
+				c08Eval(r, c08Case{Config: cfgCI, File: c08Rules, Switch: sw, Name: n, Command: "ci", State: st})
+			}
+		}
 	}
+	// --disabled takes regexps: alternations, classes, values that are no regexp at all
+	for _, pat := range []string{"alerts/count|for", "rule/(for|label)", "promql/.*", ".*/for", "alerts/template|", "a(", "[", "rule/for|", "(alerts|rule)/for", "promql/series(prom)"} {
+		c08Eval(r, c08Case{Config: c08AllKinds, File: c08Rules, Switch: "disabled-flag-pattern", Name: pat})
+	}
+	c08Instances(r)
 	c08Eval(r, c08Case{Config: c08AllKinds, File: c08Rules, Switch: "offline"})
 	r.Sample(map[string]any{"config": "all-kinds", "names": len(checks.CheckNames)})
 	// random inputs: all-kinds config, random files; also the GetChecksForEntry correspondence under random switches
@@ -233,6 +302,12 @@ func runC08(r *hx.Run, replay string) {
 			cfgAll += fmt.Sprintf("\nrule {\n  enable = [%q, %q]\n}\n", ruleEnable[0], ruleEnable[1])
 		}
 		c08Eval(r, c08Case{Config: cfgAll, File: file, Switch: sw, Name: name, RuleEnable: ruleEnable})
+		if rr.Intn(2) == 0 {
+			// the same switches under `pint ci`: the configured checks run on every state (match { state = ["any"] }), the
+			// entries carry one change state; the switch blocks themselves carry no state
+			cfgCI := strings.Replace(cfgAll, "rule {", "rule {\n  match {\n    state = [\"any\"]\n  }", 1)
+			c08Eval(r, c08Case{Config: cfgCI, File: file, Switch: sw, Name: name, RuleEnable: ruleEnable, Command: "ci", State: hx.Pick(rr, []string{"noop", "noop", "added", "modified"})})
+		}
 
 		cfgText := enConfig(r, rr.Intn(2) == 0)
 		env, err := enLoad(r, cfgText)
